@@ -335,9 +335,9 @@ def idxText : Idx → String
 
 /-- `fs`: the `fork` annotations above (rendered inside the references they qualify, like
 the known indices of `RefExp.Forks`; sorted by call id, innermost annotation wins) -/
-partial def printRF (table : List (String × List String)) (fs : List (String × Idx)) : RExp → String
+partial def printRF (table : List (String × List String)) (ctl : List String) (fs : List (String × Idx)) : RExp → String
   | .lit j => "(lit " ++ printJV j ++ ")"
-  | .arr xs => "(arr" ++ String.join (xs.map fun x => " " ++ printRF table fs x) ++ ")"
+  | .arr xs => "(arr" ++ String.join (xs.map fun x => " " ++ printRF table ctl fs x) ++ ")"
   | .map kvs => "(map" ++ kvText kvs ++ ")"
   | .struct kvs => "(st" ++ kvText kvs ++ ")"
   | .ref node _ path =>
@@ -345,16 +345,25 @@ partial def printRF (table : List (String × List String)) (fs : List (String ×
       String.join ((sortKV ((fs.filter fun e => ((table.lookup node).getD []).contains e.1).map fun e =>
         (e.1, idxText e.2))).map fun e => " (fk " ++ e.1 ++ " " ++ e.2 ++ ")") ++
       String.join (path.map fun p => " " ++ p) ++ ")"
-  | .split c _ e => "(split " ++ c ++ " " ++ printRF table fs e ++ ")"
-  | .merge c _ e => "(merge " ++ c ++ " " ++ printRF table fs e ++ ")"
-  | .disabled d v => "(dis " ++ printRF table fs d ++ " " ++ printRF table fs v ++ ")"
-  | .fork c ix e => printRF table ((c, ix) :: fs.filter fun x => x.1 != c) e
+  | .split c _ e => "(split " ++ c ++ " " ++ printRF table ctl fs e ++ ")"
+  | .merge c _ e => "(merge " ++ c ++ " " ++ printRF table ctl fs e ++ ")"
+  | .disabled d v =>
+    -- two wrappers on the same control are one (the compiler's pointer-equality shortcut)
+    -- a control that is itself conditional on an enclosing control is that control's value
+    -- (`resolveDisableExp`, case `*DisabledExp`: "already disabled on the same control")
+    let ds := match d with
+      | .disabled d0 x => if ctl.contains (printRF table ctl fs d0) then printRF table ctl fs x else printRF table ctl fs d
+      | _ => printRF table ctl fs d
+    let vs := printRF table (ds :: ctl) fs v
+    if ctl.contains ds then vs
+    else if vs.startsWith ("(dis " ++ ds ++ " ") then vs else "(dis " ++ ds ++ " " ++ vs ++ ")"
+  | .fork c ix e => printRF table ctl ((c, ix) :: fs.filter fun x => x.1 != c) e
 where
   kvText (kvs : List (String × RExp)) : String :=
-    String.join ((sortKV (kvs.map fun kv => (hexOfStr kv.1, printRF table fs kv.2))).map fun kv =>
+    String.join ((sortKV (kvs.map fun kv => (hexOfStr kv.1, printRF table ctl fs kv.2))).map fun kv =>
       " (kv " ++ kv.1 ++ " " ++ kv.2 ++ ")")
 
-def printR (table : List (String × List String)) : RExp → String := printRF table []
+def printR (table : List (String × List String)) (ctl : List String) : RExp → String := printRF table ctl []
 
 partial def hasFork : RExp → Bool
   | .lit _ => false
@@ -367,16 +376,38 @@ partial def hasFork : RExp → Bool
   | .disabled d v => hasFork d || hasFork v
   | .fork _ _ _ => true
 
+partial def hasSplit : RExp → Bool
+  | .lit _ => false
+  | .arr xs => xs.any hasSplit
+  | .map kvs => kvs.any fun kv => hasSplit kv.2
+  | .struct kvs => kvs.any fun kv => hasSplit kv.2
+  | .ref _ _ _ => false
+  | .split _ _ _ => true
+  | .merge _ _ e => hasSplit e
+  | .disabled d v => hasSplit d || hasSplit v
+  | .fork _ _ e => hasSplit e
+
 def fqid (path : List String) : String := ".".intercalate path
+
+def isLitTrue : RExp → Bool
+  | .lit (.atom s) => s == "true"
+  | _ => false
 
 /-- `table`: node name ↦ the fork roots it depends on (what the compiler prints) -/
 def printStatic (table : List (String × List String)) (out : RExp) (nodes : List SNode) : String :=
-  "(cg" ++ String.join (nodes.map fun n =>
+  "(cg" ++ String.join ((nodes.filter fun n => !n.disable.any isLitTrue).map fun n =>
+    -- the node's controls, each simplified with respect to the earlier ones, without repetitions
+    let ctl := n.disable.foldl (fun acc d =>
+      let ds := match d with
+        | .disabled d0 x => if acc.contains (printR table acc d0) then printR table acc x else printR table acc d
+        | _ => printR table acc d
+      if acc.contains ds then acc else acc ++ [ds]) []
     " (node " ++ fqid n.path ++ " (forks" ++
       String.join (((table.lookup (fqid n.path)).getD []).map fun d => " " ++ d) ++ ")" ++
+      " (disabled" ++ String.join (ctl.map fun d => " " ++ d) ++ ")" ++
       String.join (n.inputs.map fun kv =>
-        s!" (in {kv.1} {kv.2.ty.base} {kv.2.ty.mapDim} {kv.2.ty.arrDim} " ++ printR table kv.2.exp ++ ")") ++ ")") ++
-  " (out " ++ printR table out ++ "))"
+        s!" (in {kv.1} {kv.2.ty.base} {kv.2.ty.mapDim} {kv.2.ty.arrDim} " ++ printR table [] kv.2.exp ++ ")") ++ ")") ++
+  " (out " ++ printR table [] out ++ "))"
 
 def noDisabled (P : Program) : Bool :=
   Call.plain P.top && P.callables.all fun c =>
@@ -384,22 +415,27 @@ def noDisabled (P : Program) : Bool :=
     | .stage _ _ => true
     | .pipeline _ _ calls _ => calls.all fun c => c.disabled.isNone
 
+/-- den (may contain `dnull`) against the model's run-time values -/
 def sameRun (a b : J × List Inst) : Bool :=
-  render a.1 == render b.1 && a.2.length == b.2.length &&
-    (a.2.zip b.2).all fun p => renderKey p.1.key == renderKey p.2.key && render p.1.args == render p.2.args
+  a.1.matches b.1 && a.2.length == b.2.length &&
+    (a.2.zip b.2).all fun p => renderKey p.1.key == renderKey p.2.key && p.1.args.matches p.2.args
 
 def staticReply (P : Program) (obs : Option Obs) : String :=
-  if !noDisabled P then "skip not-plain" else
+  if !Call.plain P.top then "skip not-plain" else
   let s := staticProgramT P fqid
   if !treeOkList [] s.2 then "skip map-source-not-static" else
-  let nodes := flattenTList [] s.2
+  let nodes := flattenDList [] [] s.2
+  -- a control that is an element of a split collection (`resolveDisableExp` on `SplitExp`: single
+  -- elements, all-equal literals, … are simplified away): not covered
+  if nodes.any (fun n => n.disable.any hasSplit) then "skip disabled-control-depends-on-split" else
   let table := goForksTable fqid nodes []
   -- the hypotheses of the proved refinement (they speak about the flat static phase of
   -- Martian/ResolverStatic.lean: map calls of stages only)
-  let frag := Program.mapsOfStages P && wellTypedGB P && acyclicB P.table && staticProgramOk P fqid &&
+  let frag := noGuardList s.2 && Program.mapsOfStages P && wellTypedGB P && acyclicB P.table && staticProgramOk P fqid &&
     decide (((staticProgram P fqid).2.map fun n => fqid n.path).Nodup)
   -- … and of the refinement over the tree-shaped static phase (mapped pipelines, nested map calls)
-  let fragT := wellTypedTB P && acyclicB P.table && decide ((nodes.map fun n => fqid n.path).Nodup)
+  let fragT := noGuardList s.2 && wellTypedTB P && acyclicB P.table &&
+    decide ((nodes.map fun n => fqid n.path).Nodup)
   let (denV, rtV) :=
     match obs with
     | none => ("na", "na")
